@@ -22,13 +22,13 @@ DATA = {
     "B": dict(nv=5, nq=3, na=2, lattice="tab", system="trigonal7", compset="minimal", static="cubicfit", weights="scaled",
               interpolator="spline", order=3,
               qha=dict(T_MIN=100, NT=2, DT=700, DT_SAMPLE=700, NTV=25, DELTA_P=1.0, DELTA_P_SAMPLE=1.0, P_MIN=1),
-              output={"pressure_base": ["cij_t", {"keyword": "bm_V", "unit": "kbar"}, {"keyword": "v_p", "fname": "vp_custom.txt"}],
+              output={"pressure_base": ["cij_t", "cij", {"keyword": "bm_V", "unit": "kbar"}, {"keyword": "v_p", "fname": "vp_custom.txt"}],
                       "volume_base": ["p", "G_R"]}),
     "C": dict(nv=4, nq=1, na=2, lattice="none", system="cubic", compset="minimal", static="generic", weights="equal",
               qha=dict(T_MIN=0, NT=2, DT=300, DT_SAMPLE=300, NTV=17, DELTA_P=3.0, DELTA_P_SAMPLE=3.0),
               output={"pressure_base": ["cij", "v"]}),
 }
-READS = ["adi_c11", "vb_KVRH", "pb_vp", "pb_vol", "vb_s44", "iso_c12", "pb_c44"]
+READS = ["pb_adi_c11", "pb_iso_c11", "vb_KVRH", "adi_c11", "pb_vp", "pb_vol", "vb_s44", "iso_c12", "pb_c44"]
 INPUTS = {"settings.yaml", "input01", "elast.dat"}
 
 
@@ -45,6 +45,10 @@ def do_read(c, p):
     from cij.util import c_
     if p == "adi_c11":
         return c.modulus_adiabatic[c_(1, 1)]
+    if p == "pb_adi_c11":
+        return c.pressure_base.modulus_adiabatic[c_(1, 1)]
+    if p == "pb_iso_c11":
+        return c.pressure_base.modulus_isothermal[c_(1, 1)]
     if p == "iso_c12":
         return c.modulus_isothermal[c_(1, 2)]
     if p == "vb_KVRH":
@@ -138,14 +142,23 @@ def run_cli_case(case):
                     fp.write("{}\n")
                 planted.add(fn)
         env = dict(os.environ, PYTHONHASHSEED=str(seed), PYTHONPATH=repo_root() + os.pathsep + "/verif")
-        r = subprocess.run([sys.executable, "-B", "-W", "ignore", "-m", "cij.cli.cij", "run", "settings.yaml"], cwd=d, env=env,
+        rundir, settings = d, "settings.yaml"
+        if extras == "other-cwd-with-decoys":
+            # started from another directory that holds same-named input files of a different data set
+            rundir = os.path.join(d, "elsewhere")
+            os.makedirs(rundir)
+            write_inputs(rundir, "C" if name != "C" else "A")
+            os.remove(os.path.join(rundir, "settings.yaml"))
+            planted |= {"input01", "elast.dat"}
+            settings = os.path.join(d, "settings.yaml")
+        r = subprocess.run([sys.executable, "-B", "-W", "ignore", "-m", "cij.cli.cij", "run", settings], cwd=rundir, env=env,
                            capture_output=True, text=True)
         if r.returncode != 0:
             tail = (r.stderr or r.stdout).strip().splitlines()[-1:] or [""]
             exc = tail[0].split(":")[0][:40]
             return {"viol": [V(f"c14:cli:fails:{extras}:{exc}", f"`cij run` with PYTHONHASHSEED={seed} and cwd extras {extras!r} exits {r.returncode}: {tail[0][:300]}")],
                     "outcome": f"fails:{extras}"}
-        files = dir_digest(d, exclude=INPUTS | planted)
+        files = dir_digest(rundir, exclude=INPUTS | planted)
     if files != gold["files"]:
         diff = sorted(k for k in set(files) | set(gold["files"]) if files.get(k) != gold["files"].get(k))
         viol.append(V(f"c14:cli:output-differs:{extras}" + ("" if seed == "0" else ":hashseed"),
@@ -241,7 +254,7 @@ def valid_histories(alphabet, depth):
 
 def explore(ctx):
     ctx.rule = ("subprocess space: `cij run` under PYTHONHASHSEED in {0,1,2} (quick; full product for data set A, seed 1 for B and C) / "
-                "{0..15, random} (thorough) x 5 working-directory contents x 3 data sets, outputs byte-compared with a golden run; history space: all valid operation sequences of "
+                "{0..15, random} (thorough) x 6 working-directory situations (incl. started elsewhere next to decoy inputs) x 3 data sets, outputs byte-compared with a golden run; history space: all valid operation sequences of "
                 "depth <=3 (quick) / <=4 (thorough) over {new A/B, read(x, p), write(x), fill, cfg} on real objects in long-lived workers, "
                 "plus all 35 order-preserving interleavings of A:[new,read,read,write] with B:[new,read,write]; oracles: every write "
                 "byte-identical to the golden files, every read bit-identical to a fresh process and to itself when repeated, module-level "
@@ -261,15 +274,15 @@ def explore(ctx):
             ctx.violations.append(({"kind": "golden", "data": name}, V("c14:rerun-differs", f"two identical fresh runs of data set {name} differ"), MOD, "run_golden"))
         gold[name] = g
     seeds = ["0", "1", "2"] if ctx.quick else [str(i) for i in range(16)] + ["random"]
-    extras = ["none", "system-dir", "constraints-dir", "stale-outputs", "unrelated"]
+    extras = ["none", "system-dir", "constraints-dir", "stale-outputs", "unrelated", "other-cwd-with-decoys"]
     cli = [{"data": dn, "seed": s, "extras": e, "golden": gold[dn]} for dn in DATA for s in seeds for e in extras
            if not ctx.quick or dn == "A" or s == "1"]
     ctx.run(MOD, "run_cli_case", cli, part="subprocess-cli", chunksize=1)
     reads = READS[:3] if ctx.quick else READS[:5]
     alphabet = [["new", "A"], ["new", "B"]] + [["read", x, p] for x in "AB" for p in reads] + [["write", "A"], ["write", "B"], ["fill"], ["cfg"]]
     hist = valid_histories(alphabet, 3 if ctx.quick else 4)
-    a_ops = [["new", "A"], ["read", "A", "pb_vp"], ["read", "A", "adi_c11"], ["write", "A"]]
-    b_ops = [["new", "B"], ["read", "B", "vb_KVRH"], ["write", "B"]]
+    a_ops = [["new", "A"], ["read", "A", "pb_iso_c11"], ["read", "A", "pb_adi_c11"], ["write", "A"]]
+    b_ops = [["new", "B"], ["read", "B", "pb_adi_c11"], ["write", "B"]]
     inter = list(interleavings(a_ops, b_ops))
     # repeated writes and reads
     extra = [[["new", "A"], ["write", "A"], ["read", "A", "pb_vp"], ["write", "A"], ["read", "A", "pb_vp"], ["write", "A"]],
